@@ -1,0 +1,41 @@
+//go:build verif
+
+package term
+
+import (
+	"errors"
+	"time"
+)
+
+// Verification harness for gvc (/verif): compiled only with the build tag
+// "verif", never called. Property C31: terminal input decoding.
+
+// verifBytes is a byteReaderWithTimeout over at most four given bytes. It
+// records whether any read after the first one was asked to wait forever
+// (negative timeout), which would let a truncated sequence block the editor.
+type verifBytes struct {
+	b            [4]byte
+	n, i         int
+	blockingRead bool
+}
+
+var errVerifTimeout = errors.New("timeout")
+
+func (v *verifBytes) ReadByteWithTimeout(timeout time.Duration) (byte, error) {
+	if v.i > 0 && timeout < 0 {
+		v.blockingRead = true
+	}
+	if v.i >= v.n {
+		return 0, errVerifTimeout
+	}
+	x := v.b[v.i]
+	v.i++
+	return x, nil
+}
+
+// verifReadRune runs the real readRune on the first n of the four bytes.
+func verifReadRune(b0, b1, b2, b3 byte, n int) (r rune, err error, consumed int, blocking bool) {
+	rd := &verifBytes{b: [4]byte{b0, b1, b2, b3}, n: n}
+	r, err = readRune(rd, -1)
+	return r, err, rd.i, rd.blockingRead
+}
